@@ -176,8 +176,57 @@ func c07Tables(r *fw.Rec) {
 			r.Tally("format_words_equal")
 		}
 	}
+	// the stored code words themselves: VERSION_DECODE_INFO directly, and both tables through every
+	// error pattern of up to 3 bits (a stored word that is off by one or two bits still decodes the
+	// exact word by nearest match, but not every 3-bit corruption of it)
+	if len(qrdec.VERSION_DECODE_INFO) != 34 {
+		r.Violation("model-mismatch", "qr.tables:version-word-table-size", fmt.Sprintf("VERSION_DECODE_INFO has %d entries", len(qrdec.VERSION_DECODE_INFO)), nil)
+		return
+	}
+	for v := 7; v <= 40; v++ {
+		if qrdec.VERSION_DECODE_INFO[v-7] != qrref.VersionWord(v) {
+			r.Violation("model-mismatch", "qr.tables:version-word-stored", fmt.Sprintf("stored version word for version %d is %#x, BCH(18,6) gives %#x", v, qrdec.VERSION_DECODE_INFO[v-7], qrref.VersionWord(v)), map[string]interface{}{"version": v})
+			return
+		}
+		for _, sub := range bitSubsets(18, 3) {
+			w := qrref.VersionWord(v)
+			for _, k := range sub {
+				w ^= 1 << uint(k)
+			}
+			dv, err := qrdec.Version_decodeVersionInformation(w)
+			if err != nil || dv == nil || dv.GetVersionNumber() != v {
+				r.Violation("model-mismatch", "qr.tables:version-word-error-pattern", fmt.Sprintf("version word of version %d with bits %v flipped decodes to %v, %v", v, sub, dv, err), map[string]interface{}{"version": v, "bits": sub})
+				return
+			}
+			r.Tally("version_word_error_patterns_decoded")
+		}
+	}
+	subs15 := bitSubsets(15, 3)
+	for _, l := range qrAllLevels {
+		for mask := 0; mask < 8; mask++ {
+			for si, sub := range subs15 {
+				w := uint(qrref.FormatWord(l, mask))
+				for _, k := range sub {
+					w ^= 1 << uint(k)
+				}
+				// the other copy: the same corruption in one call, an independent <=3-bit corruption in the other
+				w2 := uint(qrref.FormatWord(l, mask))
+				for _, k := range subs15[(si*37+11)%len(subs15)] {
+					w2 ^= 1 << uint(k)
+				}
+				for _, other := range []uint{w, w2} {
+					fi := qrdec.FormatInformation_DecodeFormatInformation(w, other)
+					if fi == nil || fi.GetErrorCorrectionLevel() != qrLibLevel[l] || int(fi.GetDataMask()) != mask {
+						r.Violation("model-mismatch", "qr.tables:format-word-error-pattern", fmt.Sprintf("format word of %s mask %d with bits %v flipped (other copy %#x) decodes to %+v", qrLevelName[l], mask, sub, other, fi), map[string]interface{}{"level": qrLevelName[l], "mask": mask, "bits": sub})
+						return
+					}
+				}
+				r.Tally("format_word_error_patterns_decoded")
+			}
+		}
+	}
 	r.Nontrivial("tables")
-	r.Sample(map[string]interface{}{"kind": "tables", "checked": "40 versions: size, total codewords, alignment centres, 160 block structures, 34 version words, 32 format words"})
+	r.Sample(map[string]interface{}{"kind": "tables", "checked": "40 versions: size, total codewords, alignment centres, 160 block structures, 34 version words (stored value and all <=3-bit error patterns), 32 format words (all <=3-bit error patterns)"})
 }
 
 func c07(c *fw.Ctx) {
@@ -201,4 +250,6 @@ func c07(c *fw.Ctx) {
 	c.Floor("block_structures_equal", 160)
 	c.Floor("format_words_equal", 32)
 	c.Floor("version_words_equal", 34)
+	c.Floor("version_word_error_patterns_decoded", 34*988)
+	c.Floor("format_word_error_patterns_decoded", 32*576)
 }
